@@ -41,7 +41,7 @@ def plan(tier):
         return [(W[n], alphabet, 3, 2) for n in names if n not in K] + [(W[n], alphabet_k, 3, 2) for n in K] + \
             [(world_u(), alphabet_u, 2, 2)]
     p = [(W[n], alphabet_k if n in ("chain", "csum-mid", "dynamic", "chain-append", "diamond", "csum-deep", "dovar", "default") else alphabet,
-          5 if n in ("dynamic", "ifcreate", "csum-mid", "chain", "csum-two", "csum-two-b") else 4) for n in W]
+          5 if n in ("dynamic", "ifcreate", "csum-mid", "chain", "csum-two", "csum-two-b") else 4) for n in W if n not in worlds.OWN_ALPHABET]
     G = worlds.generated()
     p += [(G[k], alphabet, 3) for k in sorted(G)]
     from .c17 import alphabet_u, world_u
